@@ -2,9 +2,9 @@
    Model: model/Snapshot.v (SnapshotMetadata::Unserialize, ChainstateManager::ActivateSnapshot /
    PopulateAndValidateSnapshot / MaybeValidateSnapshot, the HASH_SERIALIZED UTXO hash) over an abstract hash function
    `hashf` and secp256k1 decompression `ec`; the block-index facts the decision consults are the record `env`. *)
-From Coq Require Import NArith.
+From Coq Require Import NArith Permutation.
 From BV Require Import lib.Ints gen.Params_gen model.SerBase model.SerTx model.Compress model.CompressEC model.CryptoSHA256 model.Snapshot
-                       proofs.SnapshotLemmas.
+                       proofs.SnapshotLemmas proofs.SnapshotOrder proofs.SnapshotTrunc.
 Local Open Scope Z_scope.
 
 (* Activation succeeds ONLY IF: no snapshot chainstate exists yet; the mempool is empty; the base block hash is in the
@@ -38,16 +38,23 @@ Qed.
 Print Assumptions C20_activation_succeeds_only_if.
 
 (* Hence, when the hash function does not collide on the two serialized sets, the loaded coin set IS the committed one:
-   a snapshot whose coins differ in any value, height, coinbase flag, script, outpoint, or that lacks or adds a coin, is rejected. *)
+   a snapshot whose coins differ in any value, height, coinbase flag, script, outpoint, or that lacks or adds a coin, is rejected.
+   (`ec` returns 65-byte keys, as secp256k1 decompression does: C20_instance_decompression_length.) *)
 Theorem C20_accepted_set_is_the_committed_set :
   forall (ec : list N -> option (list N)) (hashf : list N -> list N) (e : env) (m : smeta) (stream base : list N) (utxo committed : list ucoin),
+  (forall c pk, ec c = Some pk -> length pk = 65%nat) ->
+  bytes_ok stream ->
   activate ec hashf e m stream = AOk base utxo ->
-  Forall ucoin_wf utxo -> Forall ucoin_wf committed ->
+  Forall ucoin_wf committed ->
   (forall b au, e_lookup e base = Some b -> au_for_height (e_table e) (b_height b) = Some au -> utxo_hash hashf committed = au_hash au) ->
   (hashf (set_ser utxo) = hashf (set_ser committed) -> set_ser utxo = set_ser committed) ->      (* PREMISE: no collision *)
   utxo = committed.
 Proof.
-  intros ec hashf e m stream base utxo committed H W1 W2 HC INJ.
+  intros ec hashf e m stream base utxo committed EL BS H W2 HC INJ.
+  assert (W1 : Forall ucoin_wf utxo).
+  { pose proof (activate_ok ec hashf e m stream base utxo H) as F.
+    destruct F as [_ [_ [_ [_ [b [_ [_ [_ [_ [au [coins [_ [_ [LA [EU _]]]]]]]]]]]]]]]. subst utxo.
+    eapply load_all_wf; eassumption. }
   apply set_ser_injective; try assumption. apply INJ.
   unfold activate in H.
   destruct (e_has_snapshot e); [discriminate|].
@@ -67,11 +74,51 @@ Proof.
 Qed.
 Print Assumptions C20_accepted_set_is_the_committed_set.
 
+(* The decompression used by the extracted instance returns 65-byte keys. *)
+Theorem C20_instance_decompression_length : forall c pk, secp_decompress c = Some pk -> length pk = 65%nat.
+Proof. exact secp_decompress_len. Qed.
+Print Assumptions C20_instance_decompression_length.
+
 (* The canonical serialization that is hashed determines the coin list (no two different well-formed sets serialize alike). *)
 Theorem C20_set_serialization_injective :
   forall l1 l2, Forall ucoin_wf l1 -> Forall ucoin_wf l2 -> set_ser l1 = set_ser l2 -> l1 = l2.
 Proof. exact set_ser_injective. Qed.
 Print Assumptions C20_set_serialization_injective.
+
+(* The loaded coin set is kept in the order in which it is hashed, holds exactly the records read (pairwise different
+   outpoints), and does not depend on the order of the records in the file: a reordered snapshot is the same snapshot. *)
+Theorem C20_coin_set_is_sorted_complete_and_order_independent :
+  forall l, NoDup (map okey l) ->
+  ssorted (coin_set l) /\ (forall z, In z (coin_set l) <-> In z l) /\ forall l', Permutation l l' -> coin_set l = coin_set l'.
+Proof.
+  intros l ND. destruct (coin_set_spec l ND) as [S M]. split; [exact S|]. split; [exact M|]. intros l'. apply coin_set_permutation. exact ND.
+Qed.
+Print Assumptions C20_coin_set_is_sorted_complete_and_order_independent.
+
+(* A record that repeats an outpoint already loaded is ignored (try_emplace keeps the first coin): a file that repeats coin
+   records, with the count adjusted, loads the same set. *)
+Theorem C20_repeated_outpoint_record_is_ignored :
+  forall c l, ssorted l -> (exists y, In y l /\ okey y = okey c) -> set_add c l = l.
+Proof. exact set_add_dup. Qed.
+Print Assumptions C20_repeated_outpoint_record_is_ignored.
+
+(* A coin stream that loads completely does not activate when it is cut anywhere (truncated snapshot) ... *)
+Theorem C20_truncated_snapshot_is_rejected :
+  forall (ec : list N -> option (list N)) (hashf : list N -> list N) (e : env) (m : smeta) (s ext : list N),
+  ext <> [] ->
+  (forall b, e_lookup e (sm_base m) = Some b -> exists coins, load_all ec (b_height b) (sm_count m) (s ++ ext) = CDone coins []) ->
+  forall base utxo, activate ec hashf e m s <> AOk base utxo.
+Proof. intros ec hashf e m s ext. apply valid_then_cut_rejected. Qed.
+Print Assumptions C20_truncated_snapshot_is_rejected.
+
+(* ... nor when anything is appended to it. *)
+Theorem C20_snapshot_with_appended_bytes_is_rejected :
+  forall (ec : list N -> option (list N)) (hashf : list N -> list N) (e : env) (m : smeta) (s ext : list N),
+  ext <> [] ->
+  (forall b, e_lookup e (sm_base m) = Some b -> exists coins, load_all ec (b_height b) (sm_count m) s = CDone coins []) ->
+  forall base utxo, activate ec hashf e m (s ++ ext) <> AOk base utxo.
+Proof. intros ec hashf e m s ext. apply valid_then_extended_rejected. Qed.
+Print Assumptions C20_snapshot_with_appended_bytes_is_rejected.
 
 (* Every rejection leaves the node's chainstates untouched; success only adds the snapshot chainstate. *)
 Theorem C20_rejection_leaves_the_node_unchanged :
